@@ -147,6 +147,21 @@ class Compiler:
                 raise NotCompilable('assignment ' + op)
             out.append('%s%s = %s' % (ind, tgt, name))
             return None
+        if k == 'un' and x.get('op') in ('pre++', 'pre--', 'post++', 'post--'):
+            l = x['e']
+            while isinstance(l, dict) and l.get('k') in ('icast', 'cast'):
+                l = l['e']
+            if not (isinstance(l, dict) and l.get('k') == 'ref'):
+                raise NotCompilable('increment target')
+            name = self.var(l)
+            delta = '+ 1' if x['op'].endswith('++') else '- 1'
+            if x['op'].startswith('post'):
+                out.append('%s%s = %s' % (ind, tgt, name))
+                out.append('%s%s = %s %s' % (ind, name, name, delta))
+            else:
+                out.append('%s%s = %s %s' % (ind, name, name, delta))
+                out.append('%s%s = %s' % (ind, tgt, name))
+            return None
         if k == 'ret':
             if 'e' in x:
                 out.append('%sreturn %s' % (ind, self.expr(x['e'])))
